@@ -23,6 +23,7 @@ package server
 // on a loopback socket and are read back on real client sockets.
 
 import (
+	"bytes"
 	"encoding/binary"
 	"encoding/json"
 	"fmt"
@@ -34,9 +35,11 @@ import (
 	"sort"
 	"strconv"
 	"strings"
+	"sync"
 	"testing"
 	"time"
 
+	"github.com/miekg/dns"
 	"github.com/semihalev/sdns/middleware"
 	"golang.org/x/sys/unix"
 )
@@ -85,11 +88,145 @@ const (
 	vC10HopWriteLease
 	vC10HopFlush
 	vC10HopPanic
+	vC10HopWriteMsg
 )
 
+// data of a WriteMsg hop: the message packed on its own (m.Pack into fresh memory — the
+// reference for what the client must receive); ulen: its UNCOMPRESSED length, which is what the
+// library's PackBuffer sizes its output array by.
 type vC10Hop struct {
 	kind int
 	data []byte
+	msg  *dns.Msg
+	ulen int
+}
+
+// Go-side white-box findings of handler hops (the overflow goroutine runs hops too).
+var (
+	vC10HopMu    sync.Mutex
+	vC10HopFails []string
+)
+
+func vC10HopFail(format string, a ...any) {
+	vC10HopMu.Lock()
+	if len(vC10HopFails) < 4 {
+		vC10HopFails = append(vC10HopFails, fmt.Sprintf(format, a...))
+	}
+	vC10HopMu.Unlock()
+}
+
+func vC10TakeHopFails() string {
+	vC10HopMu.Lock()
+	defer vC10HopMu.Unlock()
+	s := strings.Join(vC10HopFails, "; ")
+	vC10HopFails = nil
+	return s
+}
+
+func vC10Ulen(m *dns.Msg) int {
+	c := *m
+	c.Compress = false
+	return c.Len()
+}
+
+// vC10MsgHop builds a reply MESSAGE for packet id: a question whose name is up to four labels
+// of one letter each, answered by TXT records under that same (compressible) owner name.
+//
+//	small   one short record: packs in place, far from every bound
+//	grown   uncompressed length beyond the slab while the wire form is a few hundred octets:
+//	        the library packs it in an array of ITS OWN and hands back a short slice of that
+//	edge    uncompressed length udpJobBufSize-3 .. +3 (the library's choice of array flips at
+//	        uncompressed+1 > len(buf)), wire form small
+//	mid     packs in place, wire form 1–3.5 KB
+//	huge    the wire form itself exceeds the slab: Write must refuse it
+func vC10MsgHop(r *rand.Rand, id uint16, shape string, buf int) vC10Hop {
+	letter := func() string { return string(rune('a' + r.Intn(26))) }
+	label := func(n int) string { return strings.Repeat(letter(), n) }
+	m := new(dns.Msg)
+	m.Id = id
+	m.Response = true
+	m.RecursionAvailable = true
+	m.Compress = true
+	name := "c10."
+	nrec, txt := 1, 8
+	target := 0
+	switch shape {
+	case "small":
+		name = label(1+r.Intn(20)) + "." + name
+		nrec, txt = 1+r.Intn(2), 1+r.Intn(30)
+	case "grown":
+		name = label(63) + "." + label(63) + "." + label(40+r.Intn(23)) + "." + name
+		nrec = 0
+		target = buf + 1 + r.Intn(900)
+	case "edge":
+		name = label(63) + "." + label(63) + "." + label(63) + "." + label(30+r.Intn(20)) + "." + name
+		nrec = 0
+		target = buf - 3 + r.Intn(7)
+	case "mid":
+		name = label(10+r.Intn(40)) + "." + name
+		nrec, txt = 4+r.Intn(10), 250
+	case "huge":
+		name = label(10+r.Intn(40)) + "." + name
+		nrec, txt = 17+r.Intn(3), 255
+	}
+	m.Question = []dns.Question{{Name: name, Qtype: dns.TypeTXT, Qclass: dns.ClassINET}}
+	// a TXT record of n content octets in strings of at most 255, each string one letter
+	rr := func(n int) *dns.TXT {
+		t := &dns.TXT{Hdr: dns.RR_Header{Name: name, Rrtype: dns.TypeTXT, Class: dns.ClassINET, Ttl: 60}}
+		for {
+			t.Txt = append(t.Txt, strings.Repeat(letter(), min(n, 255)))
+			if n -= 255; n <= 0 {
+				return t
+			}
+		}
+	}
+	for i := 0; i < nrec; i++ {
+		m.Answer = append(m.Answer, rr(txt))
+	}
+	if target > 0 {
+		// k records (4..16: few long ones or many short ones) that stop short of the target
+		// uncompressed length, then one padded up to it exactly
+		fixed := len(name) + 1 + 10 + 2 // owner, fixed RR part, one string's length octet + slack
+		k := 4 + r.Intn(13)
+		if kmax := (target - 400) / fixed; k > kmax {
+			k = kmax
+		}
+		n := max(1, (target-vC10Ulen(m)-300)/k-fixed)
+		for i := 0; i < k-1; i++ {
+			m.Answer = append(m.Answer, rr(n))
+		}
+		pad := rr(0)
+		m.Answer = append(m.Answer, pad)
+		for d := target - vC10Ulen(m); d > 0; d = target - vC10Ulen(m) {
+			last := len(pad.Txt) - 1
+			if room := 255 - len(pad.Txt[last]); room > 0 {
+				pad.Txt[last] += strings.Repeat("p", min(d, room))
+			} else {
+				pad.Txt = append(pad.Txt, "")
+			}
+		}
+	}
+	exp, err := m.Pack()
+	if err != nil {
+		return vC10Hop{kind: vC10HopFlush}
+	}
+	return vC10Hop{kind: vC10HopWriteMsg, data: exp, msg: m, ulen: vC10Ulen(m)}
+}
+
+func (g *vC10Gen) msgHop(id uint16, buf int) vC10Hop {
+	shape := "small"
+	switch k := g.r.Intn(100); {
+	case k < 20:
+	case k < 55:
+		shape = "grown"
+	case k < 80:
+		shape = "edge"
+	case k < 92:
+		shape = "mid"
+	default:
+		shape = "huge"
+	}
+	return vC10MsgHop(g.r, id, shape, buf)
 }
 
 type vC10Script struct {
@@ -115,6 +252,8 @@ func vC10HopsCoq(hs []vC10Hop) string {
 			parts = append(parts, "HF")
 		case vC10HopPanic:
 			parts = append(parts, "HP")
+		case vC10HopWriteMsg:
+			parts = append(parts, fmt.Sprintf("HM %d %s", h.ulen, vC10RLE(h.data)))
 		}
 	}
 	return "[" + strings.Join(parts, ";") + "]"
@@ -148,6 +287,22 @@ func vC10RunHops(w middleware.Transport, hs []vC10Hop, leaseCap int) {
 			}
 		case vC10HopPanic:
 			panic("verif: scripted handler panic")
+		case vC10HopWriteMsg:
+			j, _ := w.(*udpJob)
+			pre := j != nil && len(h.data) <= len(j.tx) && bytes.Equal(j.tx[:len(h.data)], h.data)
+			_ = w.WriteMsg(h.msg)
+			if j == nil || len(h.data) > len(j.tx) {
+				break
+			}
+			// white box, Go side: where the library packed (its own sizing rule, by the
+			// UNCOMPRESSED length) and what the job has staged
+			inTX := bytes.Equal(j.tx[:len(h.data)], h.data)
+			if want := h.ulen+1 <= len(j.tx) || j.burst != nil; inTX != want && !pre {
+				vC10HopFail("WriteMsg of a %d-octet message (uncompressed %d) on a job with burst=%v: message in the TX buffer afterwards = %v, expected %v", len(h.data), h.ulen, j.burst != nil, inTX, want)
+			}
+			if j.burst != nil && (j.txLen != len(h.data) || !inTX) {
+				vC10HopFail("WriteMsg of a %d-octet message (uncompressed %d) staged %d octets that are not the message", len(h.data), h.ulen, j.txLen)
+			}
 		}
 	}
 }
@@ -237,14 +392,29 @@ func (g *vC10Gen) size() int {
 }
 
 func (g *vC10Gen) hops(id uint16, allowPanic bool) []vC10Hop {
+	if g.r.Intn(100) < 6 {
+		// the Msg path: Transport.WriteMsg, alone and around the other ways of writing
+		mh := g.msgHop(id, udpJobBufSize)
+		switch g.r.Intn(8) {
+		case 0:
+			return []vC10Hop{{kind: vC10HopWrite, data: g.payload(id, g.size())}, mh}
+		case 1:
+			return []vC10Hop{mh, {kind: vC10HopWrite, data: g.payload(id, 2+g.r.Intn(20))}}
+		case 2:
+			return []vC10Hop{{kind: vC10HopLease}, {kind: vC10HopAppend, data: g.payload(id, 4+g.r.Intn(60))}, mh}
+		case 3:
+			return []vC10Hop{{kind: vC10HopFlush}, mh}
+		}
+		return []vC10Hop{mh}
+	}
 	switch k := g.r.Intn(100); {
 	case k < 45:
-		return []vC10Hop{{vC10HopWrite, g.payload(id, g.size())}}
+		return []vC10Hop{{kind: vC10HopWrite, data: g.payload(id, g.size())}}
 	case k < 65:
 		a := g.payload(id, 2+g.r.Intn(30))
-		hs := []vC10Hop{{kind: vC10HopLease}, {vC10HopAppend, a}}
+		hs := []vC10Hop{{kind: vC10HopLease}, {kind: vC10HopAppend, data: a}}
 		if g.r.Intn(2) == 0 {
-			hs = append(hs, vC10Hop{vC10HopAppend, g.payload(id, 1+g.r.Intn(20))[1:]})
+			hs = append(hs, vC10Hop{kind: vC10HopAppend, data: g.payload(id, 1+g.r.Intn(20))[1:]})
 		}
 		if g.r.Intn(12) == 0 {
 			// fill the slab's TX to the brim
@@ -252,7 +422,7 @@ func (g *vC10Gen) hops(id uint16, allowPanic bool) []vC10Hop {
 			for _, h := range hs {
 				total += len(h.data)
 			}
-			hs = append(hs, vC10Hop{vC10HopAppend, g.payload(id, udpJobBufSize-total)[2:]}, vC10Hop{vC10HopAppend, []byte{7, 7}})
+			hs = append(hs, vC10Hop{kind: vC10HopAppend, data: g.payload(id, udpJobBufSize-total)[2:]}, vC10Hop{kind: vC10HopAppend, data: []byte{7, 7}})
 		}
 		return append(hs, vC10Hop{kind: vC10HopWriteLease})
 	case k < 73:
@@ -264,21 +434,21 @@ func (g *vC10Gen) hops(id uint16, allowPanic bool) []vC10Hop {
 		if g.r.Intn(2) == 0 {
 			return []vC10Hop{{kind: vC10HopPanic}}
 		}
-		return []vC10Hop{{vC10HopWrite, g.payload(id, g.size())}, {kind: vC10HopPanic}}
+		return []vC10Hop{{kind: vC10HopWrite, data: g.payload(id, g.size())}, {kind: vC10HopPanic}}
 	case k < 81:
-		return []vC10Hop{{vC10HopWrite, g.payload(id, udpJobBufSize+1+g.r.Intn(3))}}
+		return []vC10Hop{{kind: vC10HopWrite, data: g.payload(id, udpJobBufSize+1+g.r.Intn(3))}}
 	case k < 87:
-		return []vC10Hop{{kind: vC10HopFlush}, {vC10HopWrite, g.payload(id, g.size())}}
+		return []vC10Hop{{kind: vC10HopFlush}, {kind: vC10HopWrite, data: g.payload(id, g.size())}}
 	case k < 91:
-		return []vC10Hop{{vC10HopWrite, g.payload(id, g.size())}, {vC10HopWrite, g.payload(id, 2+g.r.Intn(20))}}
+		return []vC10Hop{{kind: vC10HopWrite, data: g.payload(id, g.size())}, {kind: vC10HopWrite, data: g.payload(id, 2+g.r.Intn(20))}}
 	case k < 94:
 		// a body built in the lease and never committed
-		return []vC10Hop{{kind: vC10HopLease}, {vC10HopAppend, g.payload(id, 4+g.r.Intn(60))}}
+		return []vC10Hop{{kind: vC10HopLease}, {kind: vC10HopAppend, data: g.payload(id, 4+g.r.Intn(60))}}
 	case k < 97:
 		// staged, then the lease region is scribbled over without a second Write
-		return []vC10Hop{{vC10HopWrite, g.payload(id, 20)}, {kind: vC10HopLease}, {vC10HopAppend, g.payload(id, 6)}}
+		return []vC10Hop{{kind: vC10HopWrite, data: g.payload(id, 20)}, {kind: vC10HopLease}, {kind: vC10HopAppend, data: g.payload(id, 6)}}
 	default:
-		return []vC10Hop{{vC10HopWrite, g.payload(id, g.size())}, {kind: vC10HopFlush}}
+		return []vC10Hop{{kind: vC10HopWrite, data: g.payload(id, g.size())}, {kind: vC10HopFlush}}
 	}
 }
 
@@ -425,6 +595,7 @@ type vC10SeqCorpusPkt struct {
 	Handoff bool   `json:"handoff"`
 	Ok      *bool  `json:"ok"`
 	Fail    string `json:"fail"`
+	Msg     string `json:"msg"` // the main pass answers through WriteMsg: small | grown | edge | mid | huge
 }
 type vC10SeqCorpusOp struct {
 	Op   string             `json:"op"`
@@ -478,14 +649,17 @@ func (p *vC10SeqCorpusPkt) build(id uint16, inlineOn bool) ([]byte, *vC10Script)
 	sc := &vC10Script{ok: p.Ok == nil || *p.Ok}
 	for i, n := range p.Reply {
 		if i == 0 && p.Lease {
-			sc.main = append(sc.main, vC10Hop{kind: vC10HopLease}, vC10Hop{vC10HopAppend, vC10CorpusPayload(id, n)}, vC10Hop{kind: vC10HopWriteLease})
+			sc.main = append(sc.main, vC10Hop{kind: vC10HopLease}, vC10Hop{kind: vC10HopAppend, data: vC10CorpusPayload(id, n)}, vC10Hop{kind: vC10HopWriteLease})
 			continue
 		}
-		sc.main = append(sc.main, vC10Hop{vC10HopWrite, vC10CorpusPayload(id, n)})
+		sc.main = append(sc.main, vC10Hop{kind: vC10HopWrite, data: vC10CorpusPayload(id, n)})
+	}
+	if p.Msg != "" {
+		sc.main = append(sc.main, vC10MsgHop(rand.New(rand.NewSource(int64(len(p.Msg))*131+int64(p.Client))), id, p.Msg, udpJobBufSize))
 	}
 	if inlineOn {
 		for _, n := range p.Inline {
-			sc.inl = append(sc.inl, vC10Hop{vC10HopWrite, vC10CorpusPayload(id, n)})
+			sc.inl = append(sc.inl, vC10Hop{kind: vC10HopWrite, data: vC10CorpusPayload(id, n)})
 		}
 		sc.handoff = p.Handoff
 	}
@@ -820,7 +994,7 @@ func TestVerifC10Seq(t *testing.T) {
 					if shape == 0 && r.Intn(8) != 0 {
 						pkt = pkt[:12]
 						pkt[2], pkt[4], pkt[5], pkt[6], pkt[7], pkt[8], pkt[9], pkt[10], pkt[11] = 0, 0, 1, 0, 0, 0, 0, 0, 0
-						sc = &vC10Script{ok: true, main: []vC10Hop{{vC10HopWrite, g.payload(id, 14)}}, handoff: true}
+						sc = &vC10Script{ok: true, main: []vC10Hop{{kind: vC10HopWrite, data: g.payload(id, 14)}}, handoff: true}
 						if inlineOn && r.Intn(2) == 0 {
 							sc.handoff = false
 							sc.inl = sc.main
@@ -1016,7 +1190,10 @@ func TestVerifC10Seq(t *testing.T) {
 		}
 		if c.panicked != "" {
 			line["go_fail"] = "the engine panicked: " + c.panicked
+		} else if hf := vC10TakeHopFails(); hf != "" {
+			line["go_fail"] = hf
 		}
+		_ = vC10TakeHopFails()
 		if inconclusive {
 			line["inconclusive"] = true
 		}
